@@ -491,6 +491,18 @@ static Type infer_array_element_type(ASTNode *array_expr, Environment *env) {
     return TYPE_UNKNOWN;
 }
 
+/* Element type of the array a `for x in array_expr` loop iterates over:
+ * int, float, string or bool; TYPE_UNKNOWN when the expression is not known
+ * to be such an array (those loops are not supported natively) */
+static Type for_in_element_type(ASTNode *array_expr, Environment *env) {
+    Type elem_type = infer_array_element_type(array_expr, env);
+    if (elem_type == TYPE_INT || elem_type == TYPE_FLOAT ||
+        elem_type == TYPE_STRING || elem_type == TYPE_BOOL) {
+        return elem_type;
+    }
+    return TYPE_UNKNOWN;
+}
+
 /* ============================================================================
  * HELPER: Serialize expression AST to human-readable string (for error messages)
  * Uses static buffer - NOT thread-safe, but sufficient for single-threaded compiler
@@ -3103,6 +3115,48 @@ static void build_stmt(WorkList *list, ScopeStack *scopes, ASTNode *stmt, int in
             const char *var = stmt->as.for_stmt.var_name;
             ASTNode *range = stmt->as.for_stmt.range_expr;
             
+            if (for_in_element_type(range, env) != TYPE_UNKNOWN) {
+                /* for x in array_expr { body }: iterate over the elements.
+                 * The array expression and its length are evaluated once:
+                 *   { DynArray* _nl_arr_x = array_expr;
+                 *     int64_t _nl_len_x = dyn_array_length(_nl_arr_x);
+                 *     for (int64_t _nl_i_x = 0; _nl_i_x < _nl_len_x; _nl_i_x++) {
+                 *         T x = dyn_array_get_T(_nl_arr_x, _nl_i_x);
+                 *         body } }
+                 */
+                Type elem_type = for_in_element_type(range, env);
+                const char *get_suffix = elem_type == TYPE_FLOAT ? "float" :
+                                         elem_type == TYPE_STRING ? "string" :
+                                         elem_type == TYPE_BOOL ? "bool" : "int";
+
+                emit_indent_item(list, indent);
+                emit_literal(list, "{\n");
+                emit_indent_item(list, indent + 1);
+                emit_formatted(list, "DynArray* _nl_arr_%s = ", var);
+                build_expr(list, range, env);
+                emit_literal(list, ";\n");
+                emit_indent_item(list, indent + 1);
+                emit_formatted(list, "int64_t _nl_len_%s = dyn_array_length(_nl_arr_%s);\n", var, var);
+                emit_indent_item(list, indent + 1);
+                emit_formatted(list, "for (int64_t _nl_i_%s = 0; _nl_i_%s < _nl_len_%s; _nl_i_%s++) {\n",
+                               var, var, var, var);
+                emit_indent_item(list, indent + 2);
+                emit_formatted(list, "%s %s = dyn_array_get_%s(_nl_arr_%s, _nl_i_%s);\n",
+                               type_to_c(elem_type), var, get_suffix, var, var);
+
+                /* The loop variable is a binding of the element type for the body */
+                int saved_symbol_count = env->symbol_count;
+                env_define_var_with_type_info(env, var, elem_type, TYPE_UNKNOWN, NULL, false, create_void());
+                build_stmt(list, scopes, stmt->as.for_stmt.body, indent + 2, env, fn_registry);
+                env->symbol_count = saved_symbol_count;
+
+                emit_indent_item(list, indent + 1);
+                emit_literal(list, "}\n");
+                emit_indent_item(list, indent);
+                emit_literal(list, "}\n");
+                break;
+            }
+
             /* Expecting range_expr to be (range start end) call */
             if (range && range->type == AST_CALL && 
                 range->as.call.name && strcmp(range->as.call.name, "range") == 0 &&
